@@ -89,7 +89,7 @@ type gen struct {
 	keys   []string
 }
 
-var vias = []string{"session", "newdb", "prepare", "prepare", "ctx", "debug", "skiphooks"}
+var vias = []string{"session", "newdb", "prepare", "prepare", "ctx", "debug", "skiphooks", "reuse", "reuse"}
 
 func (g *gen) via() string {
 	if g.r.Chance(25) {
@@ -341,7 +341,10 @@ type run struct {
 	topReturned  bool
 	commitCalled bool // manual script: Commit() was reached
 	commitErr    error
-	goexited     bool // a block ended its goroutine (runtime.Goexit)
+	goexited     bool     // a block ended its goroutine (runtime.Goexit)
+	prevRes      *gorm.DB // what the previous write returned, and the block handle it was issued on
+	prevTx       *gorm.DB
+	prevOp       string
 }
 
 type spEntry struct {
@@ -437,9 +440,21 @@ func (r *run) cfgKey() string {
 
 // write executes one write step through tx and advances the model.
 func (r *run) write(tx *gorm.DB, st Step, where string) error {
-	tx = derive(tx, st.Via)
+	blockTx := tx
+	if st.Via == "reuse" {
+		// the write goes through the *gorm.DB the previous write of this block returned
+		// (`res := tx.Create(&a); res.Create(&b)`): it must stay inside the transaction
+		// only insert after insert: any other reuse accumulates the conditions of the
+		// previous statement, which gorm documents
+		if r.prevRes != nil && r.prevTx == blockTx && r.prevRes.Error == nil && r.prevOp == "insert" && st.Op == "insert" {
+			tx = r.prevRes
+		}
+	} else {
+		tx = derive(tx, st.Via)
+	}
 	snap := r.snapshot()
 	var res *gorm.DB
+	defer func() { r.prevRes, r.prevTx, r.prevOp = res, blockTx, st.Op }()
 	switch st.Op {
 	case "insert":
 		res = tx.Create(&fam.KV{K: st.K, V: st.V})
